@@ -243,3 +243,11 @@ Print Assumptions tanh_atanh.
 Print Assumptions reciprocal_right_inverses.
 Print Assumptions asin_acos_ranges.
 Print Assumptions principal_left_inverses.
+
+(* ---- tie to the source by proof: all 33 formulas regenerated from src/complex/{elementary,trigonometric,hyperbolic}.rs
+   (+ abs, arg) on this run (gen/CFunOps.v, driver/translate.py) are convertible with Model/CFun.v (Proofs/CFunGen.v). *)
+From OV Require Proofs.CFunGen.
+Theorem model_is_source_C14 : CFunGen.model_is_source_CFun.
+Proof. exact CFunGen.model_is_source_CFun_lemma. Qed.
+Check model_is_source_C14 : CFunGen.model_is_source_CFun.
+Print Assumptions model_is_source_C14.
